@@ -739,8 +739,11 @@ def k11_input_gate(core, rep):
     # no parser is built with defaults; no .get(..., default) on parsers
     for rel, c in core.all_nodes(ast.Call):
         if call_name(c) == 'ConfigParser':
-            rep.ob('K11e', f'parser-without-defaults/{rel}@{enclosing_function(c).name if enclosing_function(c) else "module"}',
-                   not any(k.arg == 'defaults' for k in c.keywords) and not c.args, f'{unparse(c)} is built with defaults', f'{rel}:{c.lineno}')
+            extra = [k.arg for k in c.keywords if k.arg != 'interpolation']
+            rep.ob('K11e', f'parser-options/{rel}@{enclosing_function(c).name if enclosing_function(c) else "module"}',
+                   not extra and not c.args,
+                   f'{unparse(c)} sets {extra or "positional defaults"}: defaults make an absent input appear supplied, and comment/delimiter options make text read from the file differ from the same text typed at a prompt',
+                   f'{rel}:{c.lineno}')
     # K11c valid/value agreement
     base_valid = core.method('Input', 'valid')
     for name, ci in core.classes.classes.items():
@@ -1310,3 +1313,87 @@ def _depth(n):
         n = n.func.value
         d += 1
     return d
+
+
+# ---------------------------------------------------------------- K24 dependency tracker shape
+def k24_tracker_shape(core, rep, parts=('a', 'b', 'c', 'd')):
+    s = core.solver
+    if 'a' in parts:
+        f = core.method('DependencyTracker', 'add_unmet')
+        g = f.cfg
+        params = [a.arg for a in f.node.args.args]
+        dep, waiter = params[1], params[2]
+        recs = []
+        for n in g.nodes:
+            if n.kind != 'stmt' or n.ast is None:
+                continue
+            for x in ast.walk(n.ast):
+                if isinstance(x, ast.Assign) and isinstance(x.targets[0], ast.Subscript) and self_attr(x.targets[0].value) == '_unmet' \
+                        and unparse(x.targets[0].slice) == dep and isinstance(x.value, ast.List) and [unparse(e) for e in x.value.elts] == [waiter]:
+                    recs.append(n)
+                if isinstance(x, ast.Call) and call_name(x) == 'append' and isinstance(x.func.value, ast.Subscript) and self_attr(x.func.value.value) == '_unmet' \
+                        and unparse(x.func.value.slice) == dep and [unparse(a) for a in x.args] == [waiter]:
+                    recs.append(n)
+        ok = bool(recs) and not g.paths_avoiding(g.entry, g.exit, {n.id for n in recs})
+        rep.ob('K24a', 'add_unmet-records-every-waiter', ok,
+               f'DependencyTracker.add_unmet() has a path on which the waiter `{waiter}` is not recorded under `{dep}`: that line would never be re-attempted nor reported', _w(f))
+    if 'b' in parts:
+        f = core.method('DependencyTracker', 'meet')
+        g = f.cfg
+        dep = f.node.args.args[1].arg
+        recs = [n for n in g.nodes if n.kind == 'stmt' and n.ast is not None and any(
+            call_name(c) == 'append' and self_attr(c.func.value) == '_met' and [unparse(a) for a in c.args] == [dep] for c in calls_in(n.ast))]
+        ok = bool(recs) and not g.paths_avoiding(g.entry, g.exit, {n.id for n in recs})
+        rep.ob('K24b', 'meet-records-every-satisfied-dependency', ok, 'DependencyTracker.meet() has a path on which the satisfied dependency is not recorded', _w(f))
+    if 'c' in parts:
+        f = core.method('DependencyTracker', 'met_dependents')
+        g = f.cfg
+        n_rm = 0
+        for n in g.nodes:
+            if n.kind != 'stmt' or n.ast is None:
+                continue
+            for x in ast.walk(n.ast):
+                rm_unmet = (isinstance(x, ast.Delete) and any(isinstance(t, ast.Subscript) and self_attr(t.value) == '_unmet' for t in x.targets)) or \
+                           (isinstance(x, ast.Call) and call_name(x) in ('pop', 'popitem', 'clear') and self_attr(x.func.value) == '_unmet')
+                rm_met = (isinstance(x, ast.Call) and call_name(x) in ('pop', 'remove', 'clear') and self_attr(x.func.value) == '_met') or \
+                         (isinstance(x, ast.Delete) and any(isinstance(t, ast.Subscript) and self_attr(t.value) == '_met' for t in x.targets))
+                if not (rm_unmet or rm_met):
+                    continue
+                n_rm += 1
+                facts = g.branch_facts(n)
+                empty = any(t.startswith('EMPTY(self._unmet[') and pol is True for t, pol in facts) or any(t.startswith('NONEMPTY(self._unmet[') and pol is False for t, pol in facts)
+                absent = any(' in self._unmet' in t and ' not in ' not in t and pol is False for t, pol in facts) or any(' not in self._unmet' in t and pol is True for t, pol in facts)
+                if rm_unmet:
+                    rep.ob('K24c', f'unmet-entry-removed-only-when-drained@{unparse(x, 40)}', empty,
+                           f'met_dependents() removes an entry of the unmet table ({unparse(x)}) before all of its waiters were handed out: an interrupted drain, or a waiter registered meanwhile, is lost', _w(f, n.ast))
+                else:
+                    rep.ob('K24c', f'met-entry-removed-only-when-drained@{unparse(x, 40)}', empty or absent,
+                           f'met_dependents() forgets a satisfied dependency ({unparse(x)}) while waiters may still be queued on it', _w(f, n.ast))
+        if n_rm < 2:
+            raise AnalysisError('met_dependents(): removal statements not found (anchor vanished)')
+        ys = [x for x in ast.walk(f.node) if isinstance(x, ast.Yield)]
+        srcs = {}
+        for x in ast.walk(f.node):
+            if isinstance(x, ast.Assign) and isinstance(x.targets[0], ast.Name) and isinstance(x.value, ast.Call) and call_name(x.value) == 'pop' \
+                    and isinstance(x.value.func.value, ast.Subscript) and self_attr(x.value.func.value.value) == '_unmet':
+                srcs[x.targets[0].id] = x
+        ok = bool(ys) and all(isinstance(y.value, ast.Name) and y.value.id in srcs for y in ys)
+        rep.ob('K24c', 'yields-the-popped-waiter', ok, 'met_dependents() does not yield exactly the waiters it pops from the unmet table', _w(f))
+    if 'd' in parts:
+        sv = s.solve
+        g = sv.cfg
+        calls = [n for n in g.nodes if n.kind == 'stmt' and n.ast is not None and any(call_name(c) == '_attempt_input' for c in calls_in(n.ast))]
+        heads = [n for n in g.nodes if n.kind == 'test' and n.label == 'loop' and any(self_attr(x) == s.queue for x in ast.walk(n.ast))
+                 and any(call_name(c) == 'has_met' for c in calls_in(n.ast))]
+        drains = [n for n in g.nodes if n.kind == 'iter' and any(call_name(c) == 'met_dependents' and self_attr(c.func.value) == s.input_tracker for c in calls_in(n.ast))]
+        if not calls or len(heads) != 1:
+            raise AnalysisError('solve(): prompting call or work-list loop head not found (anchor vanished)')
+        ok = bool(drains) and all(not g.paths_avoiding(x, heads[0], {d.id for d in drains}) for c in calls for x in c.succ)
+        rep.ob('K24d', 'answers-are-drained-before-the-next-round', ok,
+               'solve() can go from asking a question back to the head of its work-list loop without draining the lines released by the answers: '
+               'the loop condition stays true (met but undrained) while refusal blocks further prompting - a busy loop', _w(sv, calls[0].ast))
+        fdr = [n for n in g.nodes if n.kind == 'iter' and any(call_name(c) == 'met_dependents' and self_attr(c.func.value) == s.field_tracker for c in calls_in(n.ast))]
+        qloops = [n for n in g.nodes if n.kind == 'test' and n.label == 'loop' and n is not heads[0] and any(self_attr(x) == s.queue for x in ast.walk(n.ast))]
+        ok = bool(fdr) and bool(qloops) and all(g.dominates(heads[0], n) for n in fdr + qloops)
+        rep.ob('K24d', 'every-round-empties-the-queue-and-drains-released-lines', ok,
+               'the work-list loop of solve() no longer empties the queue and drains the lines released by newly stored values in every round', _w(sv))
